@@ -113,8 +113,16 @@ static void c07_case(const KeyCfg *k, int be, int nblk, int dir, int family, int
     lcg_fill(tw, (size_t)nblk * 8 + 8, 555 + (uint32_t)family);
     single_blocks(k, dir, in, tw, exp_, nblk);
     memset(out_[0], 0xEE, n + 48);
-    if (inplace) { memcpy(out, in, n); r = par_crypt(k->c, &o, out, out, tw, n, dir); }
-    else r = par_crypt(k->c, &o, out, in, tw, n, dir);
+    {
+        static uint8_t img1[2048], img2[2048]; size_t l1 = par_image(k->c, &o, img1, sizeof(img1)), l2;
+        if (inplace) { memcpy(out, in, n); r = par_crypt(k->c, &o, out, out, tw, n, dir); }
+        else r = par_crypt(k->c, &o, out, in, tw, n, dir);
+        l2 = par_image(k->c, &o, img2, sizeof(img2));
+        if (l1 != l2 || memcmp(img1, img2, l1) != 0) {   /* the object is a const argument of the data calls */
+            snprintf(sig, sizeof(sig), "C07/%s/%s/data-call-changed-object", cipher_name(k->c), be_name(be));
+            violation(sig, cd, "%s on %s, %d blocks: the parallel object (handle + context) changed during the call", kd, be_name(be), nblk);
+        }
+    }
     out_digest("parallel-output", out, n); out_digest("parallel-return", &r, sizeof(r));
     if (nblk > 0 && memcmp(out, in, n) != 0) distinct_add_u64(fnv1a(out, n, fnv1a(cd, strlen(cd), FNV_INIT)));
     if (r != 1) {
